@@ -1,6 +1,7 @@
 package main
 
 import (
+	"sync"
 	"fmt"
 	"go/types"
 	"strconv"
@@ -343,8 +344,10 @@ func (w *World) axiomText(text string) string {
 					break
 				}
 			}
-			_ = ax
 			if trig {
+				usedAxMu.Lock()
+				usedAxGlobal[ax] = true
+				usedAxMu.Unlock()
 				usedAx[i] = true
 				all += " " + t
 				changed = true
@@ -747,3 +750,9 @@ func coneOfInfluence(pc []string, goal []string) []string {
 	}
 	return out
 }
+
+// axioms that entered at least one query of this run (reported as assumptions in the evidence)
+var (
+	usedAxGlobal = map[*Axiom]bool{}
+	usedAxMu     sync.Mutex
+)
